@@ -90,6 +90,19 @@ def check_basis(ctx, case):
         U = numeric.error_transfer_matrix(p, S, omega)
         res.append((np.array(p.basis), F, inf, U))
     (C1, F1, i1, U1), (C2, F2, i2, U2) = res
+    # cross-correlated noise: a Hermitian cross-spectral matrix with complex off-diagonal entries — the
+    # infidelity of every pair of noise sources is basis independent, too
+    n_n = len(desc['n_opers'])
+    if n_n >= 2:
+        S3 = gens.rand_spectrum(np.random.default_rng(case['seed'] + 7), n_n, omega, 3)
+        pair = []
+        for kind, (Ck, _, _, _) in zip(case['kinds'], res):
+            dd = dict(desc)
+            dd['basis'] = ('custom', Ck, None, 'Custom')
+            pair.append(ff.infidelity(gens.build(dd), S3, omega))
+        e = gens.abs_err(pair[1], pair[0], float(np.max(np.abs(pair[0]))) or 1.0)
+        if not e <= 1e-8:
+            fail(ctx, 'basis_independence', case, 'infidelities of cross-correlated noise sources', e, 1e-8)
     e = gens.rel_err(F2, F1)
     if not e <= 1e-8:
         fail(ctx, 'basis_independence', case, 'fidelity filter function', e, 1e-8)
